@@ -156,14 +156,14 @@ Proof.
   - exact (pd_rel_refines after d k r H).
 Qed.
 
-Theorem p_sort_refines p :
+Theorem p_sort_refines sk p :
   Wf_para p ->
-  In (false, para_fields (snd (p_sort p))) (sp_cands PSort (para_fields p))
-  /\ Wf_para (snd (p_sort p)) /\ fst (p_sort p) = None.
+  In (false, para_fields (snd (p_sort sk p))) (sp_cands (PSort sk) (para_fields p))
+  /\ Wf_para (snd (p_sort sk p)) /\ fst (p_sort sk p) = None.
 Proof.
   destruct p as [fs|d]; cbn [p_sort Wf_para para_fields ok fst snd]; intros H.
-  - destruct (pn_sort_refines fs H). auto.
-  - destruct (pd_sort_refines d H). auto.
+  - destruct (pn_sort_refines sk fs H). auto.
+  - destruct (pd_sort_refines sk d H). auto.
 Qed.
 
 Theorem p_set_kvpair_refines p k v :
@@ -331,7 +331,7 @@ Inductive op_rel : sop -> dop -> Prop :=
 | OR_last j k : op_rel (SLast j k) (DPara j (PLast k))
 | OR_before j k r : op_rel (SBefore j k r) (DPara j (PBefore k r))
 | OR_after j k r : op_rel (SAfter j k r) (DPara j (PAfter k r))
-| OR_sort j : op_rel (SSort j) (DPara j PSort)
+| OR_sort j sk : op_rel (SSort j sk) (DPara j (PSort sk))
 | OR_set j k v fv : op_rel (SSet j k v) (DPara j (PSetF k fv))      (* fv: the field p[k] = v built *)
 | OR_del j k : op_rel (SDel j k) (DPara j (PDel k))
 | OR_append kvs fs : op_rel (SAppend kvs) (DAppend fs)               (* fs: the paragraph that was built *)
@@ -341,7 +341,7 @@ Inductive op_rel : sop -> dop -> Prop :=
 (** the operation addresses an existing paragraph / a non-negative position *)
 Definition op_in_range (d : doc) (o : sop) : bool :=
   match o with
-  | SFirst j _ | SLast j _ | SBefore j _ _ | SAfter j _ _ | SSort j | SSet j _ _ | SDel j _
+  | SFirst j _ | SLast j _ | SBefore j _ _ | SAfter j _ _ | SSort j _ | SSet j _ _ | SDel j _
   | SReappend j => (j <? length (paras d))%nat
   | SAppend _ => true
   | SInsert i _ => (0 <=? i)%Z
@@ -581,7 +581,7 @@ Qed.
 Theorem step_refines d o :
   Wf_doc d -> op_in_range d o = true -> step_ok d o (s_step d o).
 Proof.
-  intros Hwf Hr. destruct o as [j k|j k|j k r|j k r|j|j k v|j k|kvs|i kvs|j]; cbn [s_step op_in_range] in *.
+  intros Hwf Hr. destruct o as [j k|j k|j k r|j k r|j sk|j k v|j k|kvs|i kvs|j]; cbn [s_step op_in_range] in *.
   - apply (para_conclude d _ j (PFirst k)); [constructor|reflexivity|].
     apply para_step_refines; auto. intros p Hp. now apply p_first_refines.
   - apply (para_conclude d _ j (PLast k)); [constructor|reflexivity|].
@@ -590,9 +590,9 @@ Proof.
     apply para_step_refines; auto. intros p Hp. now apply (p_rel_refines false).
   - apply (para_conclude d _ j (PAfter k r)); [constructor|reflexivity|].
     apply para_step_refines; auto. intros p Hp. now apply (p_rel_refines true).
-  - apply (para_conclude d _ j PSort); [constructor|reflexivity|].
+  - apply (para_conclude d _ j (PSort sk)); [constructor|reflexivity|].
     apply para_step_refines; auto. intros p Hp.
-    destruct (p_sort_refines p Hp) as (H1 & H2 & H3). rewrite H3. cbn [flag]. auto.
+    destruct (p_sort_refines sk p Hp) as (H1 & H2 & H3). rewrite H3. cbn [flag]. auto.
   - (* p[k] = v *)
     pose proof (split_doc_spec d j) as H. destruct (split_doc d j) as [[[a p] b]|].
     2:{ destruct H as (_ & _ & Hn). apply Nat.ltb_lt in Hr. apply nth_error_None in Hn. lia. }
@@ -861,11 +861,11 @@ Proof.
   destruct (p x); [|reflexivity]. destruct (span p l). cbn in *. now rewrite IH.
 Qed.
 
-Theorem moves_permute m r after (fs : list field) :
+Theorem moves_permute m r after sk (fs : list field) :
   length m = length fs -> length r = length fs ->
   Permutation (mv_first m fs) fs /\ Permutation (mv_last m fs) fs
   /\ Permutation (mv_rel after m r fs) fs
-  /\ Permutation (sort_by (fun f => lower (f_name f)) fs) fs.
+  /\ Permutation (sort_fields_by sk fs) fs.
 Proof.
   intros _ Hr. repeat split.
   - apply pick_unpick_perm.
@@ -884,7 +884,7 @@ Proof.
         cbn [app]. constructor. apply Permutation_app_comm.
       * etransitivity; [|apply Permutation_app_comm]. rewrite <- app_assoc. apply Permutation_app_head.
         etransitivity; [apply Permutation_app_comm|]. reflexivity.
-  - apply sort_by_perm.
+  - apply sort_fields_by_perm.
 Qed.
 
 (** * The supplied newline *)
